@@ -259,9 +259,13 @@ Definition flat_ok_b (T : optable) (g : graph) : bool :=
   forallb (fun n => match n_kind n with KMod => false | _ => true end) (g_nodes g).
 
 
+(* a flat graph carries no delay marks yet (handoff_delay_type is empty before partitioning) *)
+Definition flat_marks_ok_b (g : graph) : bool :=
+  forallb (fun n => match n_delay n with None => true | Some _ => false end) (g_nodes g).
+
 (* verdict code for the checks: 0 = the front-end guarantees hold and the model predicts the implementation's whole output *)
 Definition full_check (T : optable) (flat : graph) (impl : option graph) : N :=
-  if negb (flat_ok_b T flat) then 1 else
+  if negb (flat_ok_b T flat && flat_marks_ok_b flat) then 1 else
   match partition_model T flat, impl with
   | POk m, Some i => if part_agree_b flat m i then 0 else 1
   | POk _, None => 1
